@@ -113,7 +113,7 @@ def row_goals(sp, e, vs, res, may_be_none=True):
 
 
 def install(reg, src):
-    def row_contract(key, cls, cases=None, setup=None, props=("C03", "C12"), rank=2, known=None):
+    def row_contract(key, cls, cases=None, setup=None, props=("C03",), rank=2, known=None):
         @reg.contract(key, props=list(props), cases=cases or {}, group="jacrow", rank=rank)
         def _(c):
             sp = Spec(c.ip)
@@ -131,7 +131,7 @@ def install(reg, src):
         return _
 
     # ---- base class: no shortcut
-    @reg.contract("virtual:Expression.jacobian_row", props=["C03", "C12"], group="jacrow", rank=0)
+    @reg.contract("virtual:Expression.jacobian_row", props=["C03"], group="jacrow", rank=0)
     def _(c):
         sp = Spec(c.ip)
         e = c.arg("self", T.expr())
@@ -242,7 +242,7 @@ def install(reg, src):
     # ---- compute_jacobian: one row per expression, from jacobian_row when it answers, else column-wise gradient
     for m_ in (1, 2):
         def mk(m_=m_):
-            @reg.contract(f"{AD}:compute_jacobian", props=["C03", "C17", "C12"], cases={"m": [1, 2]}) if m_ == 1 else (lambda f: f)
+            @reg.contract(f"{AD}:compute_jacobian", props=["C03", "C17"], cases={"m": [1, 2]}) if m_ == 1 else (lambda f: f)
             def _(c):
                 sp = Spec(c.ip)
                 mm = c.choose("m", [1, 2])
